@@ -775,14 +775,14 @@ end pm
 /-! ## one frame: the cases -/
 
 /-- the properties whose Spec clauses are proved to hold on every run of the model -/
-def proven : List String := ["C19", "C01", "C06", "C03", "C07"]
+def proven : List String := ["C19", "C01", "C06", "C03", "C07", "C05"]
 
 /-- the tags of all the other clauses -/
-def others : List String := ["C05", "C14", "C18"]
+def others : List String := ["C14", "C18"]
 
 theorem proven_not {p : String} (hp : p ∈ proven) : p ∉ others := by
   simp only [proven, List.mem_cons, List.not_mem_nil, or_false] at hp
-  rcases hp with rfl | rfl | rfl | rfl | rfl <;> decide
+  rcases hp with rfl | rfl | rfl | rfl | rfl | rfl <;> decide
 
 theorem ext_others {T : List String} {a b : Spec.A} (h : Spec.ErrExt T a b)
     (hs : ∀ p, p ∈ T → p ∈ others := by simp [others]) : Spec.CoreExt others a b := (h.mono hs).core
